@@ -950,15 +950,15 @@ def kernel_cross_check(ctx, report, status):
 
 
 def regul_cross_check(ctx, report, status):
-    """The REAL compiled `create_connected_graph(border_left, border_right, 1)` (depth 1: the aggregated graph is the connection
-    matrix with the diagonal set) against the translator's exact reading of the connection scan (`gen_kernels_regul.evaluate`
-    on the tree `Generated/KernelsRegul.lean` is printed from) on random segment lists: row-major as `np.argwhere` lists them,
+    """The REAL compiled `create_connected_graph(border_left, border_right, depth)`, depth 0-5, against the translator's exact
+    reading of the whole function (`gen_kernels_regul.evaluate_whole` on the tree `Generated/KernelsRegul.lean` is printed
+    from: identity branch, connection scan, closure nest) on random segment lists: row-major as `np.argwhere` lists them,
     and arbitrary ones (the equality theorem holds for every list).  A mismatch -> `status.problem("translator", …)`."""
     import random
 
     try:
         from translator import gen_kernels_regul
-        x = gen_kernels_regul.extract()
+        x = gen_kernels_regul.extract_whole()
     except Exception:  # already reported by build_and_audit (translate())  # pylint: disable=broad-except
         return
     from pandora import interval_tools
@@ -976,16 +976,15 @@ def regul_cross_check(ctx, report, status):
             segs.sort()
         bl = [[r, c0] for r, c0, _ in segs]
         br = [[r, c1] for r, _, c1 in segs]
-        real = interval_tools.create_connected_graph(np.array(bl, dtype=np.int64).reshape((n, 2)), np.array(br, dtype=np.int64).reshape((n, 2)), 1)
-        want = gen_kernels_regul.evaluate(x, bl, br)
-        for a in range(n):
-            want[a][a] = True
+        depth = rng.choice([0, 1, 1, 2, 3, 5])
+        real = interval_tools.create_connected_graph(np.array(bl, dtype=np.int64).reshape((n, 2)), np.array(br, dtype=np.int64).reshape((n, 2)), depth)
+        want = gen_kernels_regul.evaluate_whole(x, bl, br, depth)
         report.count("regul_translation_calls")
         if [[bool(v) for v in row] for row in real.tolist()] != want:
             problems += 1
             if problems <= 3:
-                status.problem("translator", f"translated connection scan of create_connected_graph evaluates differently from the real function on "
-                               f"border_left={bl} border_right={br}", f"real={real.astype(int).tolist()} reading={[[int(v) for v in r] for r in want]}")
+                status.problem("translator", f"translated create_connected_graph evaluates differently from the real function on "
+                               f"border_left={bl} border_right={br} depth={depth}", f"real={real.astype(int).tolist()} reading={[[int(v) for v in r] for r in want]}")
 
 
 def run(ctx, report, status):
